@@ -140,6 +140,9 @@ def generate(run_seed, tier):
 
         g = W.Generator(rw, ref_compute, families=fams, knob_space=W.knob_space_default(), max_ops=6 if tier == "quick" else 8,
                         pool_knobs=True, knob_prob=0.5)
+        # a persisted collection is named after its *data*; downstream of a disk shuffle the row order inside partitions
+        # follows the task order, which follows the uuid-bearing helper keys (listed finding F2) - not a naming question
+        g.allow_persist = False
         recipe = g.generate(n_targets=1)
         if recipe is None or not recipe["targets"]:
             return None
